@@ -9,7 +9,9 @@ concretised over 1..S (longer arcs are cut by the stated bound).  Obligations on
   (circle)   every sample lies on the circle around start + (i, j) with radius |(i, j)|;
   (spacing)  n = ceil(|sweep| * radius), so consecutive samples (and start -> first sample) are at most one unit apart
              (chord <= arc instances);
-  (end)      the last pair is literally the commanded end point.
+  (end)      the last pair is literally the commanded end point; when that point lies on the circle, it is start-angle
+             + sweep on the circle (angle addition, |(cross, dot)| = radius^2 by the Lagrange identity) and at most one
+             unit away from the previous sample.
 Radius form: the centre returned by computeArcCenterOffsets is at distance |R| from both end points.
 """
 import math
@@ -117,10 +119,14 @@ def scen_ij(w, S=3):
             ctx = w.ctx
 
             def have(e):
-                """make `e` (already proven or a true fact) a named member of the path condition"""
-                before = len(ctx.pc)
-                ctx.assume_expr(e)
-                return ctx.pc[-1] if len(ctx.pc) > before else None
+                """make `e` (a definition of fresh variables, an already proven statement or a true fact about sin/cos)
+                a named member of the path condition; such facts cannot make it unsatisfiable, so no query is spent"""
+                e = z3.simplify(e)
+                if z3.is_true(e):
+                    return None
+                ctx.pc.append(e)
+                ctx.model = None
+                return e
 
             def lemma(hyps, concl, label):
                 r = ctx.check_min([h for h in hyps if h is not None], concl, label, desc)
@@ -181,6 +187,95 @@ def scen_ij(w, S=3):
                 prev_fact = hp
             if sp_ok:
                 w.cover("spacing-checked")
+        # ---- last step: previous sample (or the start point when n = 1) -> commanded end point, for end points
+        #      that lie on the circle (otherwise the arc is inconsistent and no spacing can be promised)
+        ctx = w.ctx
+
+        def have(e, assumption=False):
+            if assumption:
+                before = len(ctx.pc)
+                ctx.assume_expr(e)
+                return ctx.pc[-1] if len(ctx.pc) > before else None
+            e = z3.simplify(e)
+            if z3.is_true(e):
+                return None
+            ctx.pc.append(e)
+            ctx.model = None
+            return e
+
+        def lemma(hyps, concl, label):
+            r = ctx.check_min([h for h in hyps if h is not None], concl, label, desc)
+            return ctx.pc[-1] if r is True else False
+        on_circle = have(rtx * rtx + rty * rty == h2, assumption=True)
+        if on_circle is None:
+            return
+        w.cover("end-on-circle")
+        contract_r = reg.contract.get(raw.get_id())
+        contract_0 = reg.contract.get(th0.get_id())
+        rho_r, rho_0 = reg.rho.get(raw.get_id()), reg.rho.get(th0.get_id())
+        if contract_r is None or contract_0 is None:
+            return          # degenerate atan2 (0, 0): end point at the centre cannot be on the circle
+        (c_r, s_r), (c_0, s_0) = trig.lookup(raw), trig.lookup(th0)
+        H2 = z3.Real("H2_c16")
+        hH2 = have(z3.And(H2 == h2, H2 >= 0))
+        h_rho2 = have(z3.And(rho >= 0, rho * rho == H2))
+        l_r0 = lemma([contract_0, h_rho2, hH2], rho_0 == rho, "lemma-start-radius")
+        if l_r0 is False:
+            return
+        # |(cross, dot)| = |(i, j)| * |rt| = rho * rho   (Lagrange identity), staged
+        h_cd = have(z3.And(at[0][1] == cross, at[0][2] == dot))
+        CR, DT, RT2 = z3.Real("CR_c16"), z3.Real("DT_c16"), z3.Real("RT2_c16")
+        h_defs = have(z3.And(CR == cross, DT == dot, RT2 == rtx * rtx + rty * rty))
+        l_a = lemma([contract_r, h_cd, h_defs], rho_r * rho_r == CR * CR + DT * DT, "lemma-sweep-radius-a")
+        if l_a is False:
+            return
+        l_b = lemma([h_defs, hH2], CR * CR + DT * DT == H2 * RT2, "lemma-sweep-radius-b")
+        if l_b is False:
+            return
+        l_rr = lemma([l_a, l_b, h_defs, on_circle, hH2, contract_r], rho_r == H2, "lemma-sweep-radius")
+        if l_rr is False:
+            return
+        # (cos, sin) of start-angle + sweep by angle addition (sweep differs from raw by a multiple of 2*PI)
+        ce, se = z3.Real("ce_c16"), z3.Real("se_c16")
+        h_add = have(z3.And(ce == c_0 * c_r - s_0 * s_r, se == s_0 * c_r + c_0 * s_r))
+        l_end = lemma([h_add, contract_r, contract_0, l_r0, l_rr, h_rho2, hH2, on_circle, h_cd],
+                      z3.And(rho * ce == rtx, rho * se == rty), "lemma-end-point-at-start-angle-plus-sweep")
+        if l_end is False:
+            return
+        if n >= 2:
+            ang_prev = cs[n - 2][1]
+            c_p, s_p = cs[n - 2][2], sn[n - 2][2]
+            h_prev_ang = have(ang_prev == th0 + (n - 1) * inc)
+            prev_pt = (to_real(pts[2 * (n - 2)]), to_real(pts[2 * (n - 2) + 1]))
+            h_prev_pt = have(z3.And(prev_pt[0] == tx + ti + c_p * rho, prev_pt[1] == ty + tj + s_p * rho))
+        else:
+            ang_prev = th0
+            c_p, s_p = c_0, s_0
+            h_prev_ang = None
+            prev_pt = (tx, ty)
+            h_prev_pt = contract_0
+        qe, de = z3.Real("qe_c16"), z3.Real("de_c16")
+        hq = have(z3.And(qe == (ce - c_p) * (ce - c_p) + (se - s_p) * (se - s_p), qe >= 0))
+        hd = have(de == (tex - prev_pt[0]) * (tex - prev_pt[0]) + (tey - prev_pt[1]) * (tey - prev_pt[1]))
+        # true fact about sine/cosine: chord <= arc between the previous sample angle and start-angle + sweep
+        h_fact = have(qe <= (th0 + sweep - ang_prev) * (th0 + sweep - ang_prev))
+        A2 = z3.Real("A2_c16")
+        hA2 = have(z3.And(A2 == sweep * sweep, A2 >= 0))
+        l_step = lemma([h_fact, h_prev_ang, hA2], qe * n * n <= A2, "lemma-chord-le-step")
+        if l_step is False:
+            return
+        hL2 = have(z3.And(L <= n, L >= 0))
+        l_len = lemma([hL2, hA2, hH2, h_rho2], A2 * H2 <= n * n, "lemma-arc-length-bound")
+        if l_len is False:
+            return
+        l1 = lemma([l_step, l_len, hq, hH2, hA2], qe * H2 <= 1, "lemma-scaled-chord-le-one")
+        if l1 is False:
+            return
+        l2 = lemma([hq, hd, h_prev_pt, l_end, h_rho2, hH2, l_r0, contract_0], de == H2 * qe, "lemma-distance-is-scaled-chord")
+        if l2 is False:
+            return
+        if ctx.check_min([l1, l2], de <= 1, "last-sample-to-end-point-at-most-one-unit", desc) is True:
+            w.cover("end-spacing-checked")
         return
     # ---- concrete (replay) oracle on floats ---------------------------------------------------------------
     rad = math.hypot(i, j)
@@ -309,8 +404,6 @@ META = {
         "absolute positioning, millimetres; start point set through the real G28/G1 handlers",
     ],
     "outside_claim": ["arcs with more than S segments (the loop body is uniform, but that is an argument, not a verdict)",
-                      "that the LAST sample is within one unit of the commanded end point when the end point is on the "
-                      "circle (needs the rotation identity for start-angle + sweep; not discharged)",
                       "the consequence clause about regions (an arc reaching deeper than the resolution is excluded)",
                       "relative-mode arcs, helical Z, signed zeros, the difference between TWO_PI and 2*pi at ulp level"],
 }
@@ -319,7 +412,7 @@ META = {
 def plan(tier):
     S = 6 if tier == "quick" else 12
     return [
-        Scenario("ij", scen_ij, params={"S": S}, cover=["segments-1", "segments-2", "segments-%d" % S, "spacing-checked"],
+        Scenario("ij", scen_ij, params={"S": S}, cover=["segments-1", "segments-2", "segments-%d" % S, "spacing-checked", "end-spacing-checked"],
                  bounds={"segments": "1..%d" % S, "radius": "0.2..500"}),
         Scenario("radius", scen_radius, cover=["radius-form"], bounds={"radius": "0.2..500"},
                  excludable=[KF_RADIUS]),
